@@ -46,10 +46,12 @@ class Expressed:
 
 
 class AppSim:
-    def __init__(self, frontend: str, registerer=None):
+    def __init__(self, frontend: str, registerer=None, vl=None, local=True):
         self.frontend = frontend
-        self.vl = VLoop()
+        self.owns_loop = vl is None
+        self.vl = vl or VLoop()
         self.face = net.MemFace()
+        self.face.local = local
         if frontend == 'v2':
             self.app = v2_mod.NDNApp(face=self.face, registerer=registerer or NullRegisterer())
         else:
@@ -86,7 +88,8 @@ class AppSim:
         return err
 
     def close(self):
-        self.vl.close()
+        if self.owns_loop:
+            self.vl.close()
 
     # -- pending table (secondary observation; tolerant to renames) ----------------------------
     def pending_size(self):
